@@ -137,3 +137,24 @@ pub proof fn lemma_return_type_inside(t0: Tokens, t2: Tokens, t3: Tokens, l: Loc
 	assert(t0.tokens@[0].location.span.start <= t0.tokens@[k + d].location.span.start);
 	assert(t0.tokens@[j - 1 + d].location.span.end <= t0.tokens@[t0.tokens@.len() - 1].location.span.end);
 }
+
+// ---- parse_declaration: `[pub] [extern] keyword ...` ---------------------------------------------------------------------------------------
+// rule PS6: String::from_utf8 through a TRUSTED wrapper whose body is the very call (the error value is dropped: the code ignores it)
+#[verifier::external_body]
+pub fn ps_string_from_utf8(bytes: Vec<u8>) -> (r: Result<String, ()>) {
+	match String::from_utf8(bytes) { Ok(s) => Ok(s), Err(_) => Err(()) }
+}
+// As the code stands a declaration is located at its keyword, or at `pub` / `extern` if one of them is written, and at `extern` if BOTH are
+// written (the second assignment overwrites the first): it starts at the first or the second token and reports that token's line.
+pub open spec fn declaration_at(t0: Tokens, d: Declaration) -> bool {
+	&&& !(d is Poison) && forward(dloc(d))
+	&&& exists|k: int| 0 <= k <= 1 && k < t0.tokens@.len() && dloc(d).span.start == (#[trigger] t0.tokens@[k]).location.span.start && same_line(dloc(d), t0.tokens@[k].location)
+}
+// a token that was taken precedes what the cursor shows
+pub proof fn lemma_taken_token_precedes(t0: Tokens, t: Tokens, k: int)
+	requires stream_wf(t0), stream_wf(t), took(t0, t, 1), 0 <= k < taken(t0, t),
+	ensures precedes(t0.tokens@[k].location, t), forward(t0.tokens@[k].location), t0.tokens@[k].location.span.end <= end_loc(t0).span.end,
+{
+	if t.tokens@.len() > 0 { assert(t.tokens@[0] == t0.tokens@[taken(t0, t)]); }
+	assert(t0.tokens@[k].location.span.end <= t0.tokens@[t0.tokens@.len() - 1].location.span.end);
+}
